@@ -7,6 +7,8 @@ pub mod index;
 pub mod laws;
 pub mod limits;
 pub mod order;
+pub mod read;
+pub mod reference;
 pub mod stmts;
 pub mod tlp;
 
